@@ -81,3 +81,104 @@ def run_history(history):
             E.report()
             E.dump()
             E.json()
+
+
+# ----------------------------------------------------------------------------------------
+#  binding of spec/ClassState.tla: replay exported histories of initialize() calls on the real classes
+# ----------------------------------------------------------------------------------------
+import re as _re
+_CLS = _re.compile(r'^"CLSCASE (.*)"\s*$', _re.M)
+UNSET, DIRTY, NOD = -1, -2, -9
+
+
+def cls_cases(out):
+    return [json.loads(m.group(1).replace('\\"', '"').replace('\\\\', '\\')) for m in _CLS.finditer(out)]
+
+
+def _reset_classes():
+    "put the three classes back into the state of a fresh interpreter"
+    from droop.values.fixed import Fixed
+    from droop.values.guarded import Guarded
+    from droop.values.rational import Rational
+    for k in ('name', 'info', 'epsilon', 'precision', 'display', '_Fixed__scale', '_Fixed__dfmt', '_Fixed__scaled', '_Fixed__scaledr'):
+        setattr(Fixed, k, None)
+    for k in ('_Fixed__scaledd',):
+        if k in Fixed.__dict__:
+            delattr(Fixed, k)
+    for k in ('info', 'precision', 'guard', 'display', '_Guarded__scale', '_Guarded__scalep', '_Guarded__scaleg', '_Guarded__scaled',
+              '_Guarded__scaledd', '_Guarded__scaledr', '_Guarded__dfmt'):
+        setattr(Guarded, k, None)
+    Guarded.exact = True
+    Guarded.quasi_exact = True
+    for k in ('_Guarded__scaledg', '_Guarded__geps', 'maxDiff', 'minDiff', 'epsilon'):
+        if k in Guarded.__dict__:
+            delattr(Guarded, k)
+    for k in ('dp', '_dps', '_dpr', '_dfmt'):
+        setattr(Rational, k, None)
+    return Fixed, Guarded, Rational
+
+
+def _exp10(x):
+    if x is None:
+        return UNSET
+    e = len(str(x)) - 1
+    return e if x == 10 ** e else -100 - (x % 97)
+
+
+def _digits(fmt, which):
+    if fmt is None:
+        return UNSET
+    m = _re.match(r'%d\.%0(\d+)d(?:_%0(\d+)d)?$', fmt)
+    if not m:
+        return -100
+    return int(m.group(1)) if which == 0 else int(m.group(2) or 0)
+
+
+def real_class_state():
+    from droop.values.fixed import Fixed
+    from droop.values.guarded import Guarded
+    from droop.values.rational import Rational
+    g = lambda cls, k: cls.__dict__.get(k)
+    un = lambda v: UNSET if v is None else v
+    F = dict(name=g(Fixed, 'name') or '', precision=un(g(Fixed, 'precision')), display=un(g(Fixed, 'display')),
+             scale=_exp10(g(Fixed, '_Fixed__scale')), scaled=_exp10(g(Fixed, '_Fixed__scaled')), scaledd=_exp10(g(Fixed, '_Fixed__scaledd')),
+             epsilon=un(getattr(g(Fixed, 'epsilon'), '_value', None)), dfmt=_digits(g(Fixed, '_Fixed__dfmt'), 0))
+    geps = g(Guarded, '_Guarded__geps')
+    G = dict(precision=un(g(Guarded, 'precision')), guard=un(g(Guarded, 'guard')), display=un(g(Guarded, 'display')),
+             scalep=_exp10(g(Guarded, '_Guarded__scalep')), scaleg=_exp10(g(Guarded, '_Guarded__scaleg')), scale=_exp10(g(Guarded, '_Guarded__scale')),
+             scaledd=_exp10(g(Guarded, '_Guarded__scaledd')), scaled=_exp10(g(Guarded, '_Guarded__scaled')), scaledg=_exp10(g(Guarded, '_Guarded__scaledg')),
+             geps10=UNSET if geps is None else next((e for e in range(0, 30) if max(10 ** e // 2, 1) == geps), -100),
+             maxDiff=un(g(Guarded, 'maxDiff')), minDiff=_exp10(g(Guarded, 'minDiff')) if g(Guarded, 'minDiff') is not None else UNSET,
+             dfmtp=_digits(g(Guarded, '_Guarded__dfmt'), 0), dfmtg=_digits(g(Guarded, '_Guarded__dfmt'), 1),
+             exact=1 if Guarded.exact else 0, quasi=1 if Guarded.quasi_exact else 0,
+             epsilon=un(getattr(g(Guarded, 'epsilon'), '_value', None)))
+    R = dict(dp=un(g(Rational, 'dp')), dps=_exp10(g(Rational, '_dps')))
+    return dict(fixed=F, guarded=G, rational=R)
+
+
+def replay_class_case(case):
+    "run the history of initialize() calls on the real classes (with comparisons in between) and compare every attribute"
+    import arith
+    Fixed, Guarded, Rational = _reset_classes()
+    for c in case['hist']:
+        V = arith.setup(c['cls'], c['p'], c['g'], None if c['d'] == NOD else c['d'])
+    # comparisons of an earlier guarded election dirty the statistics of the class; replay the history again so that every
+    # initialize() runs on dirty statistics, as it does in a process that counted elections before
+    for c in case['hist']:
+        if c['cls'] == 'guarded' and Guarded.precision is not None:
+            a, b = Guarded(1), Guarded(2)
+            a < b
+            a == Guarded(1)
+        V = arith.setup(c['cls'], c['p'], c['g'], None if c['d'] == NOD else c['d'])
+    real = real_class_state()
+    diffs = []
+    last = case['hist'][-1]['cls']
+    for cls in ('fixed', 'guarded', 'rational'):
+        for k, want in case['state'][cls].items():
+            got = real[cls][k]
+            if want == DIRTY or (cls == 'guarded' and k in ('maxDiff', 'minDiff') and cls != last):
+                continue
+            if got != want:
+                diffs.append(('%s.%s' % (cls, k), want, got))
+    _reset_classes()
+    return diffs
